@@ -522,9 +522,11 @@ Qed.
 
 Lemma empty_prog_safe : forall v, In [] (safe_progs v).
 Proof.
-  intro v. unfold safe_progs. apply in_map_iff.
-  exists (E "Id" none). split; [reflexivity|].
-  destruct v; vm_compute; tauto.
+  intro v.
+  assert (H : existsb (fun p => match p with [] => true | _ => false end) (safe_progs v) = true)
+    by (destruct v; vm_compute; reflexivity).
+  apply existsb_exists in H. destruct H as [p [Hp E]].
+  destruct p; [exact Hp | discriminate].
 Qed.
 
 Lemma prog_of_safe : forall v n, is_culprit n = false -> In (prog_of v n) (safe_progs v).
@@ -581,20 +583,90 @@ Proof.
   - apply well_locked_other_field; exact I.
 Qed.
 
-Lemma guard_discipline_lemma : forall v,
+Lemma guard_discipline_lemma : forall v, v <> Cold ->
   forallb (fun e => breaks_discipline (e_name e) || well_locked_all guards (e_prog e))
           (api_table v) = true.
-Proof. destruct v; vm_compute; reflexivity. Qed.
+Proof. destruct v; intro H; [exfalso; apply H; reflexivity | |]; vm_compute; reflexivity. Qed.
 
 Lemma api_guarded_race_free_lemma :
   forall (v : variant) (es : list entry) (f : field) (sched : list nat),
+    v <> Cold ->
     (forall e, In e es -> In e (api_table v) /\ breaks_discipline (e_name e) = false) ->
     race_on f (exec (init (map e_prog es)) sched) = false.
 Proof.
-  intros v es f sched H. apply well_locked_race_free_lemma with (G := guards).
+  intros v es f sched Hv H. apply well_locked_race_free_lemma with (G := guards).
   intros p f' Hp. apply in_map_iff in Hp. destruct Hp as [e [Ee He]]. subst p.
   destruct (H e He) as [Hin Hb].
-  pose proof (guard_discipline_lemma v) as G. rewrite forallb_forall in G.
+  pose proof (guard_discipline_lemma v Hv) as G. rewrite forallb_forall in G.
   specialize (G e Hin). rewrite Hb in G. simpl in G.
   apply well_locked_all_f. exact G.
 Qed.
+
+(* ------------------------------------------------------------ refutations *)
+
+Local Open Scope string_scope.
+
+Definition two (v : variant) (a b : string) : config := init [prog_of v a; prog_of v b].
+
+(* StateNames() || StateNames(), export copy not built yet: both pass the nil
+   check under the shared lock and both write the copy *)
+Lemma statenames_refuted_lemma :
+  exists sched, race_on stateNamesExport (exec (two Cold "StateNames" "StateNames") sched) = true.
+Proof. exists [0; 0; 0; 1; 1; 1]. vm_compute. reflexivity. Qed.
+
+(* the same two calls once the copy exists: no schedule races *)
+Lemma statenames_warm_lemma :
+  forall f sched, race_on f (exec (two Warm "StateNames" "StateNames") sched) = false.
+Proof.
+  intros f sched. apply (api_warm_race_free_lemma ["StateNames"; "StateNames"]).
+  intros n [H|[H|[]]]; subst n; reflexivity.
+Qed.
+
+Lemma verifystates_refuted_lemma :
+  (exists sched, race_on stateNames (exec (two Warm "VerifyStates" "Is") sched) = true) /\
+  (exists sched, race_on stateNamesExport (exec (two Warm "VerifyStates" "StateNames") sched) = true).
+Proof.
+  split.
+  - exists [0; 0; 0; 0; 1; 1; 1; 1]. vm_compute. reflexivity.
+  - exists [0; 0; 0; 0; 0; 1]. vm_compute. reflexivity.
+Qed.
+
+Lemma import_refuted_lemma :
+  (exists sched, race_on activeStates (exec (two Warm "Import" "Is") sched) = true) /\
+  (exists sched, race_on clock (exec (two Warm "Import" "Tick") sched) = true).
+Proof.
+  split.
+  - exists [0; 0; 0; 0; 1; 1; 1]. vm_compute. reflexivity.
+  - exists [0; 0; 0; 0; 0; 0; 0; 1; 1]. vm_compute. reflexivity.
+Qed.
+
+Lemma setschema_refuted_lemma :
+  (exists sched, race_on stateNames (exec (two Warm "SetSchema" "Has") sched) = true) /\
+  (exists sched, race_on stateNames (exec (two Warm "SetSchema" "Is") sched) = true).
+Proof.
+  split.
+  - exists [0; 0; 0; 0; 0; 0; 0; 1]. vm_compute. reflexivity.
+  - exists [0; 0; 0; 0; 0; 0; 0; 1; 1; 1; 1]. vm_compute. reflexivity.
+Qed.
+
+Lemma netmach_refuted_lemma :
+  (exists sched, race_on nmTracers (exec (two Warm "NM.TracerBind" "NM.Tracers") sched) = true) /\
+  (exists sched, race_on nmLogEntries (exec (two Warm "NM.UpdateClock" "NM.Log") sched) = true).
+Proof.
+  split.
+  - exists [0; 0; 1]. vm_compute. reflexivity.
+  - exists [0; 0; 0; 0; 0; 0; 0; 0; 0; 0; 0; 0; 0; 1; 1; 1; 1; 1]. vm_compute. reflexivity.
+Qed.
+
+(* the model does block: two exclusive sections never overlap *)
+Example exclusion_nonvacuous :
+  let p := [Acq 0 Ex; Write 0; Rel 0 Ex] in
+  let c := exec (init [p; p]) [0; 1; 1; 1] in
+  map (fun t => List.length (th_rest t)) c = [2; 3].
+Proof. vm_compute. reflexivity. Qed.
+
+Example race_nonvacuous :
+  race_on 0 (exec (init [[Acq 0 Sh; Write 0; Rel 0 Sh]; [Acq 0 Sh; Read 0; Rel 0 Sh]]) [0; 1]) = true.
+Proof. vm_compute. reflexivity. Qed.
+
+Local Close Scope string_scope.
